@@ -1599,6 +1599,37 @@ Qed.
 
 End Serves.
 
+(* accepting a message is one critical section with the closing-check: once an instance
+   is closed (Done -> nodeDelete marks the token finished) no message is queued for it and
+   its reader is never woken again -- a wake-up never follows the close *)
+Lemma no_wakeup_after_close : forall pm t s ev,
+  leaked s = [] -> mem_tok (p_to pm) (finished s) = true ->
+  exists m', deliver_hit pm t (mkM s [] ev) = Ret tt m' /\
+             forall k f, In (EDeliver k f) (evs m') -> In (EDeliver k f) ev.
+Proof.
+  intros pm t [st rm ins fin pk pt cf lkd] ev Hl Hf. cbn in Hl, Hf. subst lkd.
+  unfold deliver_hit, locked, clean_tree_storage, st_remove, with_store, sf_remove, bind, acquire, release, access, get, modify, ret.
+  cbn. rewrite Hf. cbn.
+  destruct (existsb (uses_tree (tk_tree (p_to pm))) ins); cbn.
+  - eexists. split; [reflexivity|]. cbn. intros k f H. repeat (destruct H as [H|H]; [discriminate|]). exact H.
+  - destruct (mem_nat (tk_tree (p_to pm)) rm); cbn; (eexists; split; [reflexivity|]); cbn; intros k f H;
+      repeat (destruct H as [H|H]; [discriminate|]); exact H.
+Qed.
+
+Lemma done_marks_finished : forall fx s k,
+  leaked s = [] -> mem_tok k (insts s) = true ->
+  r_out (step fx s (LocalDone k)) = Ok /\
+  mem_tok k (finished (r_state (step fx s (LocalDone k)))) = true.
+Proof.
+  intros fx [st rm ins fin pk pt cf lkd] k Hl Hi. cbn in Hl, Hi. subst lkd.
+  unfold step, run_op, locked, node_delete, clean_tree_storage, st_remove, with_store, sf_remove,
+    bind, acquire, release, access, get, modify, ret.
+  cbn. rewrite Hi. cbn.
+  destruct (existsb (uses_tree (tk_tree k)) (filter (fun x => negb (tok_eqb x k)) ins)); cbn;
+    [|destruct (mem_nat (tk_tree k) rm); cbn];
+    (split; [reflexivity|]; unfold tok_eqb; rewrite ?Nat.eqb_refl; reflexivity).
+Qed.
+
 (* ---- Part 5: the unrepaired variants -------------------------------------------------------- *)
 
 (* the genuine roster (servers 1, 4 = this server, 2) and trees of the harness *)
